@@ -309,3 +309,178 @@ Proof. exact ToyD13.l2_key_assumption_needed. Qed.
 Theorem C10_sync_async_same_source : twin_ncrypt_unprotect_secret = true /\ twin_ncrypt_protect_secret = true.
 Proof. exact public_twins. Qed.
 Print Assumptions C10_sync_async_same_source.
+
+(* ================================================================================================================
+   Tie to the source: whole bodies of _client.py functions, regenerated as syntax on every run (gen/F_cache.v) and run in
+   the worlds of Flow/World_cache.v.  (Imports are here, not at the top: PyAst and Model.Cache share the names `world`,
+   `outcome`.)
+   1. sync/async twins: the async body IS the sync body after the syntactic renaming ren_f
+      (_async_get_key -> _sync_get_key, async_lookup_dc -> lookup_dc on PCall callee keys; nothing else is touched).
+   2. abstract model (Model/Cache.v, the functions the theorems above are about): the four public functions compute
+      Cache.unprotect / Cache.protect - the key used (o_key) AND the cache afterwards - for every cache, request, DC oracle.
+   3. concrete model (Model/Client.v): the four public functions compute unprotect_offline / protect_offline (value and cache
+      afterwards) when no DC is reachable, and unprotect_online / protect_online (the same pipelines with the miss branch
+      filled in by the network oracles) in general.
+   4. KeyCache.__init__, load_key, _store_key.  _store_key stores through an alias of an inner dictionary; the semantics is
+      single-owner, so the tie is for the store decision and the new innermost dictionary, NOT for `self` afterwards
+      (C10_flow_keycache_store_key_self states what the semantics does there).  KeyCache._get_key is refused by the
+      translator (subscript assignment through a call chain) and has no tie; both stay covered by k_cache_covers /
+      k_cache_store / k_cache_root_overwrites and the correspondence cache.histories.
+   ---------------------------------------------------------------------------------------------------------------- *)
+From V Require Import Prelude.PyAst Prelude.PyAstMut Prelude.PyWorld gen.F_cache.
+From V Require Import Model.Types Model.Crypto Model.Gkdi Model.Client Flow.World_cache.
+From V Require Import Proofs.Flow_cache_twins Proofs.Flow_cache_abs Proofs.Flow_cache_public Proofs.Flow_cache_class.
+
+(* ---- 1. twins ---- *)
+Theorem C10_flow_twin_unprotect : k_flow_ncrypt_unprotect_secret = ren_f k_flow_async_ncrypt_unprotect_secret.
+Proof. exact flow_twin_unprotect. Qed.
+Print Assumptions C10_flow_twin_unprotect.
+Theorem C10_flow_twin_protect : k_flow_ncrypt_protect_secret = ren_f k_flow_async_ncrypt_protect_secret.
+Proof. exact flow_twin_protect. Qed.
+Print Assumptions C10_flow_twin_protect.
+(* the renaming is the identity on the sync functions, and the async bodies do differ from the sync ones before it *)
+Theorem C10_flow_twin_sync_fixed :
+  ren_f k_flow_ncrypt_unprotect_secret = k_flow_ncrypt_unprotect_secret /\
+  ren_f k_flow_ncrypt_protect_secret = k_flow_ncrypt_protect_secret.
+Proof. exact flow_twin_sync_fixed. Qed.
+Print Assumptions C10_flow_twin_sync_fixed.
+Theorem C10_flow_twin_differ :
+  pf_body k_flow_async_ncrypt_unprotect_secret <> pf_body k_flow_ncrypt_unprotect_secret /\
+  pf_body k_flow_async_ncrypt_protect_secret <> pf_body k_flow_ncrypt_protect_secret.
+Proof. exact flow_twin_differ. Qed.
+Print Assumptions C10_flow_twin_differ.
+
+(* ---- 2. abstract model: value (key material used) and cache afterwards (parameter `cache`) ---- *)
+Theorem C10_flow_unprotect_abs : forall (K RK : Type) (kdf : KDF K) (l1seed : SEED K RK) (nokey : K) (dc : DC K) (now0 now1 now2 : Z)
+    fuel sd rk l0 l1 l2 server u p a co,
+  avalue_and_param 5 (run_mut (AMW kdf l1seed nokey dc now0 now1 now2) fuel k_flow_ncrypt_unprotect_secret
+                        [VO (AData sd rk l0 l1 l2); vs_opt server; u; p; a; vacache_opt co])
+  = alift (Cache.unprotect kdf l1seed nokey dc (acache_or_new co) sd rk l0 l1 l2).
+Proof. exact (@flow_unprotect_abs). Qed.
+Print Assumptions C10_flow_unprotect_abs.
+Theorem C10_flow_async_unprotect_abs : forall (K RK : Type) (kdf : KDF K) (l1seed : SEED K RK) (nokey : K) (dc : DC K) (now0 now1 now2 : Z)
+    fuel sd rk l0 l1 l2 server u p a co,
+  avalue_and_param 5 (run_mut (AMW kdf l1seed nokey dc now0 now1 now2) fuel k_flow_async_ncrypt_unprotect_secret
+                        [VO (AData sd rk l0 l1 l2); vs_opt server; u; p; a; vacache_opt co])
+  = alift (Cache.unprotect kdf l1seed nokey dc (acache_or_new co) sd rk l0 l1 l2).
+Proof. exact (@flow_async_unprotect_abs). Qed.
+Print Assumptions C10_flow_async_unprotect_abs.
+(* (now0, now1, now2) is the position _get_protection_gke_from_cache computes from the clock *)
+Theorem C10_flow_protect_abs : forall (K RK : Type) (kdf : KDF K) (l1seed : SEED K RK) (nokey : K) (dc : DC K) (now0 now1 now2 : Z)
+    fuel d sd rko server dom u p a co,
+  avalue_and_param 8 (run_mut (AMW kdf l1seed nokey dc now0 now1 now2) fuel k_flow_ncrypt_protect_secret
+                        [d; VI sd; vz_opt rko; vs_opt server; dom; u; p; a; vacache_opt co])
+  = alift (Cache.protect kdf l1seed nokey dc (acache_or_new co) sd rko now0 now1 now2).
+Proof. exact (@flow_protect_abs). Qed.
+Print Assumptions C10_flow_protect_abs.
+Theorem C10_flow_async_protect_abs : forall (K RK : Type) (kdf : KDF K) (l1seed : SEED K RK) (nokey : K) (dc : DC K) (now0 now1 now2 : Z)
+    fuel d sd rko server dom u p a co,
+  avalue_and_param 8 (run_mut (AMW kdf l1seed nokey dc now0 now1 now2) fuel k_flow_async_ncrypt_protect_secret
+                        [d; VI sd; vz_opt rko; vs_opt server; dom; u; p; a; vacache_opt co])
+  = alift (Cache.protect kdf l1seed nokey dc (acache_or_new co) sd rko now0 now1 now2).
+Proof. exact (@flow_async_protect_abs). Qed.
+Print Assumptions C10_flow_async_protect_abs.
+
+(* ---- 3. concrete model ---- *)
+(* offline (lookup_dc and _sync_get_key raise): value and cache afterwards are Client.unprotect_offline / protect_offline *)
+Theorem C10_flow_unprotect_offline : forall c r1 r2 r3 ns fuel data server u p a co,
+  value_and_param 5 (run_mut (MW c r1 r2 r3 ns no_dns no_dc) fuel k_flow_ncrypt_unprotect_secret [VB data; vstr_opt server; u; p; a; vcache_opt co])
+  = lift2 (unprotect_offline c (cache_or_new co) data).
+Proof. exact flow_unprotect_offline. Qed.
+Print Assumptions C10_flow_unprotect_offline.
+Theorem C10_flow_async_unprotect_offline : forall c r1 r2 r3 ns fuel data server u p a co,
+  value_and_param 5 (run_mut (MW c r1 r2 r3 ns no_dns no_dc) fuel k_flow_async_ncrypt_unprotect_secret [VB data; vstr_opt server; u; p; a; vcache_opt co])
+  = lift2 (unprotect_offline c (cache_or_new co) data).
+Proof. exact flow_async_unprotect_offline. Qed.
+Print Assumptions C10_flow_async_unprotect_offline.
+Theorem C10_flow_protect_offline : forall c r1 r2 r3 ns fuel data sid rkid server dom u p a co,
+  value_and_param 8 (run_mut (MW c r1 r2 r3 ns no_dns no_dc) fuel k_flow_ncrypt_protect_secret
+                       [VB data; VS sid; vbytes_opt rkid; vstr_opt server; dom; u; p; a; vcache_opt co])
+  = lift2 (protect_offline c (cache_or_new co) r1 r2 r3 data sid rkid ns).
+Proof. exact flow_protect_offline. Qed.
+Print Assumptions C10_flow_protect_offline.
+Theorem C10_flow_async_protect_offline : forall c r1 r2 r3 ns fuel data sid rkid server dom u p a co,
+  value_and_param 8 (run_mut (MW c r1 r2 r3 ns no_dns no_dc) fuel k_flow_async_ncrypt_protect_secret
+                       [VB data; VS sid; vbytes_opt rkid; vstr_opt server; dom; u; p; a; vcache_opt co])
+  = lift2 (protect_offline c (cache_or_new co) r1 r2 r3 data sid rkid ns).
+Proof. exact flow_async_protect_offline. Qed.
+Print Assumptions C10_flow_async_protect_offline.
+(* the offline models are the online pipelines with the two network oracles raising NeedNetwork *)
+Theorem C10_unprotect_online_offline : forall c cache data server u p a,
+  unprotect_online c no_dns no_dc cache data server u p a = unprotect_offline c cache data.
+Proof. exact unprotect_online_offline. Qed.
+Print Assumptions C10_unprotect_online_offline.
+Theorem C10_protect_online_offline : forall c r1 r2 r3 ns cache data sid rkid server dom u p a,
+  protect_online c r1 r2 r3 ns no_dns no_dc cache data sid rkid server dom u p a = protect_offline c cache r1 r2 r3 data sid rkid ns.
+Proof. exact protect_online_offline. Qed.
+Print Assumptions C10_protect_online_offline.
+(* any network oracles (dns : lookup_dc's arguments -> SrvRecord.target, getkey : _sync_get_key's arguments -> envelope) *)
+Theorem C10_flow_unprotect_online_state : forall c r1 r2 r3 ns dns getkey fuel data server u p a co,
+  value_and_param 5 (run_mut (MW c r1 r2 r3 ns dns getkey) fuel k_flow_ncrypt_unprotect_secret [VB data; vstr_opt server; u; p; a; vcache_opt co])
+  = lift2 (unprotect_online c dns getkey (cache_or_new co) data server u p a).
+Proof. exact flow_unprotect_online_state. Qed.
+Print Assumptions C10_flow_unprotect_online_state.
+Theorem C10_flow_async_unprotect_online_state : forall c r1 r2 r3 ns dns getkey fuel data server u p a co,
+  value_and_param 5 (run_mut (MW c r1 r2 r3 ns dns getkey) fuel k_flow_async_ncrypt_unprotect_secret [VB data; vstr_opt server; u; p; a; vcache_opt co])
+  = lift2 (unprotect_online c dns getkey (cache_or_new co) data server u p a).
+Proof. exact flow_async_unprotect_online_state. Qed.
+Print Assumptions C10_flow_async_unprotect_online_state.
+Theorem C10_flow_protect_online_state : forall c r1 r2 r3 ns dns getkey fuel data sid rkid server dom u p a co,
+  value_and_param 8 (run_mut (MW c r1 r2 r3 ns dns getkey) fuel k_flow_ncrypt_protect_secret
+                       [VB data; VS sid; vbytes_opt rkid; vstr_opt server; dom; u; p; a; vcache_opt co])
+  = lift2 (protect_online c r1 r2 r3 ns dns getkey (cache_or_new co) data sid rkid server dom u p a).
+Proof. exact flow_protect_online_state. Qed.
+Print Assumptions C10_flow_protect_online_state.
+Theorem C10_flow_async_protect_online_state : forall c r1 r2 r3 ns dns getkey fuel data sid rkid server dom u p a co,
+  value_and_param 8 (run_mut (MW c r1 r2 r3 ns dns getkey) fuel k_flow_async_ncrypt_protect_secret
+                       [VB data; VS sid; vbytes_opt rkid; vstr_opt server; dom; u; p; a; vcache_opt co])
+  = lift2 (protect_online c r1 r2 r3 ns dns getkey (cache_or_new co) data sid rkid server dom u p a).
+Proof. exact flow_async_protect_online_state. Qed.
+Print Assumptions C10_flow_async_protect_online_state.
+(* the same in PyAst's plain `run` (value only) *)
+Theorem C10_flow_unprotect_online : forall c r1 r2 r3 ns dns getkey fuel data server u p a co,
+  PyAst.run (W c r1 r2 r3 ns dns getkey) fuel k_flow_ncrypt_unprotect_secret [VB data; vstr_opt server; u; p; a; vcache_opt co]
+  = lift (fst (unprotect_online c dns getkey (cache_or_new co) data server u p a)).
+Proof. exact flow_unprotect_online. Qed.
+Print Assumptions C10_flow_unprotect_online.
+Theorem C10_flow_async_unprotect_online : forall c r1 r2 r3 ns dns getkey fuel data server u p a co,
+  PyAst.run (W c r1 r2 r3 ns dns getkey) fuel k_flow_async_ncrypt_unprotect_secret [VB data; vstr_opt server; u; p; a; vcache_opt co]
+  = lift (fst (unprotect_online c dns getkey (cache_or_new co) data server u p a)).
+Proof. exact flow_async_unprotect_online. Qed.
+Print Assumptions C10_flow_async_unprotect_online.
+Theorem C10_flow_protect_online : forall c r1 r2 r3 ns dns getkey fuel data sid rkid server dom u p a co,
+  PyAst.run (W c r1 r2 r3 ns dns getkey) fuel k_flow_ncrypt_protect_secret
+    [VB data; VS sid; vbytes_opt rkid; vstr_opt server; dom; u; p; a; vcache_opt co]
+  = lift (fst (protect_online c r1 r2 r3 ns dns getkey (cache_or_new co) data sid rkid server dom u p a)).
+Proof. exact flow_protect_online. Qed.
+Print Assumptions C10_flow_protect_online.
+Theorem C10_flow_async_protect_online : forall c r1 r2 r3 ns dns getkey fuel data sid rkid server dom u p a co,
+  PyAst.run (W c r1 r2 r3 ns dns getkey) fuel k_flow_async_ncrypt_protect_secret
+    [VB data; VS sid; vbytes_opt rkid; vstr_opt server; dom; u; p; a; vcache_opt co]
+  = lift (fst (protect_online c r1 r2 r3 ns dns getkey (cache_or_new co) data sid rkid server dom u p a)).
+Proof. exact flow_async_protect_online. Qed.
+Print Assumptions C10_flow_async_protect_online.
+
+(* ---- 4. KeyCache methods ---- *)
+Theorem C10_flow_keycache_init : forall c r1 r2 r3 ns dns getkey fuel cc0,
+  run_mut (MW c r1 r2 r3 ns dns getkey) fuel k_flow_keycache_init [VO (OCache cc0)] = Ok (VN, [VO (OCache cc_empty)]).
+Proof. exact flow_keycache_init. Qed.
+Print Assumptions C10_flow_keycache_init.
+(* load_key_root: the RootKey built from the arguments with the two defaults of the source filled in
+   (KDFParameters("SHA512"), RFC 5114 2.3 DH parameters when secret_algorithm == "DH") *)
+Theorem C10_flow_keycache_load_key : forall c r1 r2 r3 ns dns getkey fuel cc key rkid ver kalg kpar salg spar priv pub,
+  self_after (run_mut (MW c r1 r2 r3 ns dns getkey) fuel k_flow_keycache_load_key
+                [VO (OCache cc); VB key; VB rkid; VI ver; VS kalg; vbytes_opt kpar; VS salg; vbytes_opt spar; VI priv; VI pub])
+  = (let* rk := load_key_root key ver kalg kpar salg spar priv pub in Ok (VN, VO (OCache (cc_load cc rkid rk)))).
+Proof. exact flow_keycache_load_key. Qed.
+Print Assumptions C10_flow_keycache_load_key.
+Theorem C10_flow_keycache_store_key : forall c r1 r2 r3 ns dns getkey fuel cc sd e,
+  local_after "seed_key" (PyAst.exec_block (W c r1 r2 r3 ns dns getkey) fuel (pf_body k_flow_keycache_store_key) (store_key_env cc sd e))
+  = Ok (Some (VO (OSeedsRS (cc_seeds (cc_store_key cc sd e)) (gke_rkid e) sd))).
+Proof. exact flow_keycache_store_key. Qed.
+Print Assumptions C10_flow_keycache_store_key.
+Theorem C10_flow_keycache_store_key_self : forall c r1 r2 r3 ns dns getkey fuel cc sd e,
+  local_after "self" (PyAst.exec_block (W c r1 r2 r3 ns dns getkey) fuel (pf_body k_flow_keycache_store_key) (store_key_env cc sd e))
+  = Ok (Some (VO (OCache cc))).
+Proof. exact flow_keycache_store_key_self. Qed.
+Print Assumptions C10_flow_keycache_store_key_self.
